@@ -481,11 +481,95 @@ fn pool_run(ch: &Ch, quota: usize) -> ExecResult {
     ExecResult { obs: fx_hash(&lg), violation, nontrivial: true, witnesses: vec![("refused_inserts", lg.iter().filter(|x| x.0 == "insert" && !x.2).count() as u64)] }
 }
 
+/// (d) Thread level: REAL threads call PoolWatch::insert / remove on one pool; every interleaving at
+/// the lock acquisitions of the underlying watch channel (vendored tokio's thread points) - an async
+/// mutex that is taken shows up as "blocked until another thread has made a step".
+fn thread_part() -> (u64, bool, Option<(String, serde_json::Value)>) {
+    use crate::threads::{block_on_visible, explore_all, Run};
+    // (keys inserted concurrently, quota for keys outside the allowed set {1})
+    let scenarios: Vec<(&str, Vec<u32>, usize)> = vec![
+        ("two connections of the same non-configured identity", vec![7, 7], 1),
+        ("two connections of the same configured identity", vec![1, 1], 1),
+        ("two non-configured identities competing for one slot", vec![7, 8], 1),
+        ("three connections: the same identity twice and another one, two slots", vec![7, 7, 8], 2),
+    ];
+    let mut total = 0;
+    let mut complete = true;
+    for (si, (name, keys, quota)) in scenarios.into_iter().enumerate() {
+        let (runs, all, fail) = explore_all(
+            || {
+                let pool = Arc::new(nv::VPool::new([1u32], quota));
+                let oks: Arc<Mutex<Vec<(usize, u32, bool)>>> = Default::default();
+                let mut threads: Vec<Box<dyn FnOnce() + Send>> = vec![];
+                for (ti, k) in keys.iter().enumerate() {
+                    let (pool, oks, k) = (pool.clone(), oks.clone(), *k);
+                    threads.push(Box::new(move || {
+                        let r = block_on_visible(pool.insert(k, ti as u32));
+                        oks.lock().unwrap().push((ti, k, r.is_ok()));
+                    }));
+                }
+                let keys2 = keys.clone();
+                let check: Box<dyn FnOnce(&Run) -> Option<String>> = Box::new(move |_run| {
+                    let oks = oks.lock().unwrap().clone();
+                    let cur = pool.current();
+                    // one connection per identity
+                    for k in keys2.iter().collect::<HashSet<_>>() {
+                        let admitted = oks.iter().filter(|o| o.1 == *k && o.2).count();
+                        if admitted > 1 {
+                            return Some(format!("identity {k} was admitted {admitted} times concurrently (results {oks:?}, pool {cur:?})"));
+                        }
+                    }
+                    // non-configured identities within the quota
+                    let extra_admitted = oks.iter().filter(|o| o.1 != 1 && o.2).count();
+                    if extra_admitted > quota {
+                        return Some(format!("{extra_admitted} non-configured connections admitted with a quota of {quota} (results {oks:?})"));
+                    }
+                    // nobody refused without reason: the first insert of a key with a free slot succeeds
+                    let distinct_extra = keys2.iter().filter(|k| **k != 1).collect::<HashSet<_>>().len();
+                    if extra_admitted < distinct_extra.min(quota) {
+                        return Some(format!("only {extra_admitted} non-configured connections admitted although {} distinct identities asked and the quota is {quota} (results {oks:?})", distinct_extra));
+                    }
+                    // the pool lists exactly the admitted identities
+                    let listed: Vec<u32> = cur.iter().map(|x| x.0).collect();
+                    let mut want: Vec<u32> = oks.iter().filter(|o| o.2).map(|o| o.1).collect();
+                    want.sort();
+                    want.dedup();
+                    if listed != want {
+                        return Some(format!("the pool lists {listed:?}, admitted were {want:?}"));
+                    }
+                    // the quota is intact afterwards: everybody disconnects, then `quota` new identities fit
+                    for k in &listed {
+                        block_on_visible(pool.remove(*k));
+                    }
+                    for j in 0..quota as u32 {
+                        if block_on_visible(pool.insert(100 + j, 0)).is_err() {
+                            return Some(format!("after every connection was closed only {j} of {quota} non-configured identities are admitted: a slot of the quota has leaked (results of the race {oks:?})"));
+                        }
+                    }
+                    None
+                });
+                (threads, check)
+            },
+            200_000,
+        );
+        total += runs;
+        complete &= all;
+        if let Some((prefix, what)) = fail {
+            return (total, false, Some((format!("[pool_threads] scenario '{name}': {what} (interleaving {prefix:?})"), json!({"harness": "c12-threads", "scenario": si, "interleaving": prefix}))));
+        }
+    }
+    (total, complete, None)
+}
+
 pub fn run(args: &Args) -> Report {
     let mut rep = Report::new("C12", "model_checking");
     if let Some(r) = &args.replay {
         let rp = &r["replay"];
-        if rp["harness"] == "c12-pool" {
+        if rp["harness"] == "c12-threads" {
+            if let (_, _, Some((w, r))) = thread_part() {
+                rep.violations.push(Violation { key: "pool_threads".into(), what: w, replay: r });
+            }
+        } else if rp["harness"] == "c12-pool" {
             let quota = rp["config"]["quota"].as_u64().unwrap_or(1) as usize;
             let devs: core::Deviations = rp["deviations"].as_array().map(|a| a.iter().map(|p| (p[0].as_u64().unwrap() as u32, p[1].as_u64().unwrap() as u32)).collect()).unwrap_or_default();
             let (res, div) = core::replay_one(&|ch: &Ch| pool_run(ch, quota), devs);
@@ -527,6 +611,10 @@ pub fn run(args: &Args) -> Report {
         rep.machinery_errors.extend(tmp.machinery_errors);
         stats.push(st.to_json());
     }
+    let (truns, tall, tviol) = thread_part();
+    if let Some((w, r)) = tviol {
+        rep.violations.push(Violation { key: "pool_threads".into(), what: w, replay: r });
+    }
     if t.accepted == 0 || t.refused == 0 || refused == 0 {
         if rep.violations.is_empty() {
             rep.machinery_errors.push(format!("vacuous: tcp accepted {} refused {}, pool refused inserts {refused}", t.accepted, t.refused));
@@ -540,6 +628,7 @@ pub fn run(args: &Args) -> Report {
             {"admission": "A connected; second connection as A refused and A stays registered; B refused by quota 1; after A disconnects B is admitted"},
             {"pool": "three tasks: [insert 1, insert 7, remove 7], [insert 7, insert 8], [insert 9, remove 1, insert 1], quota 1"},
         ],
+        "pool_thread_level_interleavings": truns, "pool_thread_level_all_explored": tall,
         "rule": "transcripts / admission: a fixed list of adversarial handshakes and connection sequences, each through the real preface, noise session, handshake and pool code over loop-back TCP (real time, one run each - deterministic outcomes, not schedule exploration); pool: every schedule of three concurrent insert/remove programs within the deviation bound for quota 0, 1, 2",
         "tcp_cases": t.cases, "tcp_admitted": t.accepted, "tcp_refused": t.refused,
         "pool_deviation_bound": args.tier.pick(3, 5), "exhaustive": !capped,
